@@ -189,6 +189,18 @@ def run_staged(out, tier, seed, rng, work):
 def replay(out, path):
     case = json.load(open(path))["case"]["case"]
     work = core.scratch("c09r-")
+    if "trace" in case and "end" in case:
+        # a nested-generator history (TraceRelay)
+        cin, cout = os.path.join(work, "rl.json"), os.path.join(work, "rlo.json")
+        json.dump([{k: case[k] for k in ("id", "n", "steps", "end")}], open(cin, "w"))
+        core.run_driver("harness.drivers.relay_driver", [cin, cout])
+        r = core.run_tlc("TraceRelay", "TraceRelay.cfg", env={"TRACE_FILE": cout}, workers=1, timeout=600)
+        out.add_tlc("TraceRelay[replay]", r)
+        out.traces += 1
+        for t in r.tagged("FAIL"):
+            out.judge({"clause": "Relay:" + t[2], "end": case["end"]}, {"case": json.load(open(cout))[0], "at": t[3]})
+        out.samples.append({"replayed": path})
+        return
     if "stages" in case:
         import os
         cin, cout = os.path.join(work, "sg.json"), os.path.join(work, "st.json")
